@@ -17,7 +17,7 @@ def main(quals):
         rep = v.verify(q)
         print("== %s: paths=%d obligations=%d time=%.2fs solver=%.2fs %s" % (q, rep.paths, len(rep.obligations), rep.time, rep.solver_time, "OK" if rep.ok() else "NOT-OK"))
         for o in rep.obligations:
-            if (o.kind == "canary") != (o.status == "refuted") or o.status == "undecided":
+            if (o.kind != "canary" and o.status != "discharged") or (o.kind == "canary" and not rep.canary_status()[o.clause.name]):
                 print("   ", o.status, o.name, o.extra, o.model)
             elif "-v" in sys.argv:
                 print("   ", o.status, o.name, "%.3f" % o.time, o.core)
